@@ -24,8 +24,12 @@ def configs(gen):
             out.append(dict(gen=gen, schema=sc, **c08.pre(sh), nsym=1, kinds=0x7ff))
         if si == 0:
             out.append(dict(gen=gen, schema=sc, **c08.pre('small'), nsym=2, kinds=0x7ff))
+            # a rejected operation followed by a successful write, then closing: what a transaction guard that leaves the connection inside a
+            # transaction after a failure loses (seeded change C10-1: SAVEPOINT / ROLLBACK TO instead of BEGIN / ROLLBACK).  The prefixes hold a
+            # removed track / a removed crate so that one symbolic operation can be the rejected one and the next the write
+            out.append(dict(gen=gen, schema=sc, **c08.pre('after-removals'), nsym=2, kinds=0x7ff))
+            out.append(dict(gen=gen, schema=sc, **c08.pre('crate-removed'), nsym=2, kinds=0x7ff))
             if not Q:
-                out.append(dict(gen=gen, schema=sc, **c08.pre('after-removals'), nsym=1, kinds=0x7ff))
                 out.append(dict(gen=gen, schema=sc, **c08.pre('two-roots'), nsym=2, kinds=0x7ff))
     return out
 def main():
